@@ -28,7 +28,7 @@ from __future__ import annotations
 import ast
 from pathlib import Path
 
-from .core import FuncInfo, clone, dotted, set_parents
+from .core import FuncInfo, clone, dotted, norm, set_parents
 
 BASELINE_FILE = Path(__file__).with_name("baseline_functions.txt")
 MAX_ROUNDS = 4
@@ -675,8 +675,10 @@ class Inliner:
 
 
 # --------------------------------------------------------- literal unrolling
-def unroll(func: ast.FunctionDef) -> tuple[ast.FunctionDef, bool]:
-    """for-loops and unpacked generator expressions over literal tuples."""
+def unroll(func: ast.FunctionDef, only: set | None = None
+           ) -> tuple[ast.FunctionDef, bool]:
+    """for-loops and unpacked generator expressions over literal tuples
+    (`only`: restrict to loops whose iterable has one of these texts)."""
     from .core import _Rename
     changed = [False]
 
@@ -758,7 +760,8 @@ def unroll(func: ast.FunctionDef) -> tuple[ast.FunctionDef, bool]:
                     setattr(st, f, expand(sub))
             for h in getattr(st, "handlers", []) or []:
                 h.body = expand(h.body)
-            if isinstance(st, ast.For) and not st.orelse and not any(
+            if isinstance(st, ast.For) and not st.orelse and (
+                    only is None or norm(st.iter, 400) in only) and not any(
                     isinstance(n, (ast.Break, ast.Continue))
                     for b in st.body for n in _own_loop_nodes(b)):
                 tables = rows_of(st.target, st.iter)
@@ -2139,6 +2142,11 @@ def normalise_program(prog, *, inline: bool = True,
                 node = u
                 if q not in report["unrolled"]:
                     report["unrolled"].append(q)
+        pending_iters = {norm(n_.iter, 400) for n_ in ast.walk(node)
+                         if isinstance(n_, ast.For) and isinstance(
+                             n_.iter, (ast.Tuple, ast.List)) and any(
+                             isinstance(x, ast.Continue)
+                             for x in ast.walk(n_))}
         if canonical:
             selfname, vprops = None, set()
             if fi.cls is not None and not fi.is_staticmethod() and \
@@ -2154,12 +2162,20 @@ def normalise_program(prog, *, inline: bool = True,
                 node = u
                 if q not in report["canonicalised"]:
                     report["canonicalised"].append(q)
-            # loops whose `continue` was turned into a guard can unroll now
-            if unroll_loops and any(
-                    isinstance(n_, ast.For) and isinstance(
-                        n_.iter, (ast.Tuple, ast.List))
-                    for n_ in ast.walk(node)):
-                u2, ch2 = unroll(node)
+            # loops over a literal that could not unroll because of a
+            # `continue` (now a guard) can unroll after canonicalisation
+            # ... and loops over a local literal of (name, callable) rows
+            # that constant propagation has just moved into the loop header
+            # (tables of plain constants stay: table rules read them)
+            for n_ in ast.walk(node):
+                if isinstance(n_, ast.For) and isinstance(
+                        n_.iter, (ast.Tuple, ast.List)) and any(
+                        not isinstance(x, (ast.Constant, ast.Tuple, ast.List,
+                                           ast.Load, ast.UnaryOp, ast.USub))
+                        for x in ast.walk(n_.iter)):
+                    pending_iters.add(norm(n_.iter, 400))
+            if unroll_loops and pending_iters:
+                u2, ch2 = unroll(node, only=pending_iters)
                 if ch2:
                     node = u2
                     if q not in report["unrolled"]:
